@@ -1,20 +1,30 @@
-"""seeds lean/DcmVerif/Props/Source.lean from Proofs/Code.lean (statements copied, proofs by reference)"""
-import sys, os
-sys.argv = ['x', 'C00', '/verif/lean/DcmVerif/Proofs/Code.lean', 'Src.', 'DcmVerif.Proofs.Code']
+"""seeds lean/DcmVerif/Props/SourceMeta.lean and SourceStack.lean from Proofs/CodeMeta.lean / CodeStack.lean
+(statements copied, proofs by reference)"""
+import sys, os, importlib
 sys.path.insert(0, os.path.dirname(__file__))
-import gen_props as G
-pairs = [('get_valid_classes_is_model', 'get_valid_classes_eq'), ('get_valid_classes_refuses', 'get_valid_classes_refuses'),
-         ('get_multiplicity_is_model', 'get_multiplicity_eq'), ('file_idx_is_model', 'file_idx_eq'),
-         ('file_idx_volume_is_model', 'file_idx_volume_eq'), ('get_meta_index_is_model', 'get_meta_index_eq'),
-         ('is_constant_is_model', 'is_constant_eq'), ('is_repeating_is_model', 'is_repeating_eq'),
-         ('get_const_period_is_model', 'get_const_period_eq'), ('meta_valid_is_model', 'meta_valid_eq'),
-         ('get_shape_counts_is_model', 'get_shape_counts_eq'), ('accept_is_counts_and_order', 'acceptB_counts'),
-         ('get_data_trim_is_model', 'get_data_trim_eq')]
-out = ("import DcmVerif.Proofs.Code\n/-! The tie by proof: functions translated from the Python source on every run (`tools/gen_code.py` →\n"
-       "`Generated/Code.lean`) are the model functions the property theorems speak about. Statements only;\nproofs are by reference to `Proofs/Code.lean`. -/\n"
-       "set_option autoImplicit false\nset_option linter.unusedVariables false\nopen Cls\n\nnamespace Source\nvariable {α κ : Type}\nopen Src Stk\n\n")
-for new, orig in pairs:
-    out += G.emit(new, orig) + "\n"
-out += "/-- the translator translated every function it is asked for -/\ntheorem translator_complete : Gen.codeMissing = [] := rfl\n\nend Source\n"
-open('/verif/lean/DcmVerif/Props/Source.lean', 'w').write(out)
-print(len(pairs) + 1, 'theorems')
+GROUPS = {
+ 'Meta': ('CodeMeta', 'codeMissingMeta', 'dcmmeta.py',
+          [('get_valid_classes_is_model', 'get_valid_classes_eq'), ('get_valid_classes_refuses', 'get_valid_classes_refuses'),
+           ('get_multiplicity_is_model', 'get_multiplicity_eq'), ('get_meta_index_is_model', 'get_meta_index_eq'),
+           ('is_constant_is_model', 'is_constant_eq'), ('is_repeating_is_model', 'is_repeating_eq'),
+           ('get_const_period_is_model', 'get_const_period_eq'), ('meta_valid_is_model', 'meta_valid_eq')]),
+ 'Stack': ('CodeStack', 'codeMissingStack', 'dcmstack.py',
+           [('file_idx_is_model', 'file_idx_eq'), ('file_idx_volume_is_model', 'file_idx_volume_eq'),
+            ('get_shape_counts_is_model', 'get_shape_counts_eq'), ('accept_is_counts_and_order', 'acceptB_counts'),
+            ('get_data_trim_is_model', 'get_data_trim_eq')]),
+}
+for grp, (mod, missing, srcfile, pairs) in GROUPS.items():
+    sys.argv = ['x', 'C00', '/verif/lean/DcmVerif/Proofs/%s.lean' % mod, 'Src.', 'DcmVerif.Proofs.%s' % mod]
+    import gen_props as G
+    importlib.reload(G)
+    out = ("import DcmVerif.Proofs.%s\n/-! The tie by proof (%s): functions translated from the Python source on every run\n"
+           "(`tools/gen_code.py` → `Generated/Code.lean`) are the model functions the property theorems speak about.\n"
+           "Statements only; proofs are by reference to `Proofs/%s.lean`. -/\n"
+           "set_option autoImplicit false\nset_option linter.unusedVariables false\nopen Cls\n\nnamespace Source\nvariable {α κ : Type}\nopen Src Stk\n\n"
+           % (mod, srcfile, mod))
+    for new, orig in pairs:
+        out += G.emit(new, orig) + "\n"
+    out += ("/-- the translator translated every function of %s it is asked for -/\ntheorem translator_complete_%s : Gen.%s = [] := rfl\n\nend Source\n"
+            % (srcfile, grp.lower(), missing))
+    open('/verif/lean/DcmVerif/Props/Source%s.lean' % grp, 'w').write(out)
+    print(grp, len(pairs) + 1, 'theorems')
